@@ -13,10 +13,6 @@ import dali.driver.hid as H
 import dali.driver.serial as S
 from dali.exceptions import CommunicationError
 
-# the deeper thorough case list (kept in cases()) could not be re-validated end to end after the final harness
-# changes within the session: see symx/runner.py
-THOROUGH_CASES = "quick"
-
 META = {
     "level_text": "Bounded symbolic exploration of fault schedules on the real hid.tridonic / hid.hasseb drivers "
                   "(fake os, virtual clock) and the LUBA / SCI drivers (fake transport): the loss point (idle, "
